@@ -29,10 +29,20 @@ CONSTANTS
   ModesA,      \* modes offered to activation-only kinds
   IOModes,     \* modes offered to the virtual INPUT / OUTPUT operators
   Share,       \* "none" | "tensor" | "buffer": constants may be shared between ops
-  FixPerf,     \* TRUE: performer as repaired (F1/F2); FALSE: as before the fix
-  FixRemove,   \* TRUE: guarded list.remove in the requantise branch (F11)
-  FixDedup,    \* TRUE: a tensor is listed once per buffer in the buffer-sharing check (F10)
-  FixConcat    \* TRUE: constants of same-as-output ops get data (F13)
+  Fixes        \* set of repairs present in the code being modelled (DESIGN 6):
+               \*   "perf"   performer: op 0 is a producer, -1 stays -1, position-based id-map shift (F1/F2)
+               \*   "remove" guarded list.remove in the requantise branch (F11)
+               \*   "aq"     two ADD_QUANTIZE consumers with different parameters are compatible (F10)
+               \*   "sig"    signature outputs follow rewired subgraph outputs (F6)
+               \*   "uniq"   inserted tensors get a name that is unique in the subgraph (F19)
+               \*   "concat" constants of same-as-output ops are given data (F13; not repaired in the code)
+
+FixPerf == "perf" \in Fixes
+FixRemove == "remove" \in Fixes
+FixAQ == "aq" \in Fixes
+FixSig == "sig" \in Fixes
+FixConcat == "concat" \in Fixes
+FixUniq == "uniq" \in Fixes
 
 NoPar == <<"none">>
 NoEntry == [op |-> -9, tr |-> "none", par |-> NoPar]
@@ -238,6 +248,7 @@ Seal ==
        /\ R' = [s \in 1..NSub |->
                   [ops |-> [i \in 1..NOpsOf(s) |-> [ins |-> G[s].ops[i].ins, outs |-> G[s].ops[i].outs, orig |-> i-1, qk |-> "-"]],
                    outs |-> oc[s],
+                   sigout |-> oc[s],
                    dt |-> [t \in 1..NT0(s) |-> IF Role(s, t-1) = "aux" THEN "i32" ELSE "f32"],
                    par |-> [t \in 1..NT0(s) |-> NoPar],
                    nm |-> [t \in 1..NT0(s) |-> <<t-1>>],
@@ -351,7 +362,7 @@ FloatSrc == {"AQ", "NQ"}
 QuantSrc == {"QT", "ADQ"}
 CompatE(a, b) ==
   \/ (a.tr = b.tr /\ a.par = b.par)
-  \/ /\ ~(a.tr # "NQ" /\ b.tr # "NQ" /\ a.par # b.par)
+  \/ /\ ~(a.tr # "NQ" /\ b.tr # "NQ" /\ a.par # b.par /\ ~(FixAQ /\ a.tr = "AQ" /\ b.tr = "AQ"))
      /\ \/ (a.tr \in FloatSrc /\ b.tr \in FloatSrc)
         \/ (a.tr \in QuantSrc /\ b.tr \in QuantSrc)
 \* _compatible_tensor_transformation_params
@@ -372,16 +383,11 @@ Mentions ==
                       \o SelectSeq([j \in 1..Len(o.ins) |-> <<s, o.ins[j]>>], LAMBDA x : x[2] # -1)
                       \o f(s, i+1)
   IN f(1, 1)
-Dedup(L) == LET RECURSIVE f(_, _)
-                f(k, acc) == IF k > Len(L) THEN acc
-                             ELSE f(k+1, IF L[k] \in SeqRange(acc) THEN acc ELSE Append(acc, L[k]))
-            IN f(1, <<>>)
 BufCheckOK ==
   LET M == Mentions
       bufs == {BufOf(x[1], x[2]) : x \in SeqRange(M)}
   IN \A b \in bufs :
-       LET L0 == SelectSeq(M, LAMBDA x : BufOf(x[1], x[2]) = b)
-           L == IF FixDedup THEN Dedup(L0) ELSE L0
+       LET L == SelectSeq(M, LAMBDA x : BufOf(x[1], x[2]) = b)
        IN Len(L) <= 1 \/ \A k \in 2..Len(L) : CompatT(L[1][1], L[1][2], L[k][1], L[k][2])
 BufCheck ==
   /\ pc = "bufcheck"
@@ -450,6 +456,7 @@ Gen ==
   /\ UNCHANGED <<G, mode, inmode, outmode, nbufg, qsv, prod, cons, order, R, bufw, qi>>
 
 \* ------------------------------------------------------------------ performer
+CntSuffix(n) == CASE n = 1 -> "_1" [] n = 2 -> "_2" [] n = 3 -> "_3" [] n = 4 -> "_4" [] OTHER -> "_n"
 PyInsert(sq, pos0, e) == LET p == IF pos0 > Len(sq) THEN Len(sq) ELSE pos0
                          IN SubSeq(sq, 1, p) \o <<e>> \o SubSeq(sq, p+1, Len(sq))
 
@@ -503,7 +510,13 @@ ApplyInsert ==
                    ELSE rest[k]]
          outs2 == IF FixPerf /\ -1 \notin origCons THEN Rs.outs
                   ELSE [k \in 1..Len(Rs.outs) |-> IF Rs.outs[k] = I.t THEN newT ELSE Rs.outs[k]]
-         R0 == [Rs EXCEPT !.nm = Append(@, @[I.t+1] \o <<IF I.tr = "AQ" THEN "_quantized" ELSE "_dequant">>),
+         base == Rs.nm[I.t+1] \o <<IF I.tr = "AQ" THEN "_quantized" ELSE "_dequant">>
+         taken == SeqRange(Rs.nm)
+         newName == IF ~FixUniq \/ base \notin taken THEN base
+                    ELSE base \o <<CntSuffix(CHOOSE n \in 1..(Len(Rs.nm)+1) :
+                                     /\ base \o <<CntSuffix(n)>> \notin taken
+                                     /\ \A j \in 1..(n-1) : base \o <<CntSuffix(j)>> \in taken)>>
+         R0 == [Rs EXCEPT !.nm = Append(@, newName),
                           !.shp = Append(@, @[I.t+1])]
          R1 == IF I.tr = "AQ"
                THEN [R0 EXCEPT !.dt = Append(@, DtOf(I.par)), !.par = Append(@, I.par)]
@@ -515,7 +528,10 @@ ApplyInsert ==
                   ELSE [k \in 1..Len(omap) |->
                           IF (minOrig >= 0 /\ k - 1 >= minOrig) \/ (minOrig = -1 /\ k = Len(omap))
                           THEN omap[k] + 1 ELSE omap[k]]
-     IN /\ R' = [R EXCEPT ![s] = [R1 EXCEPT !.ops = PyInsert(rew, opid, newop), !.outs = outs2,
+         sig2 == IF FixSig /\ outs2 # Rs.outs
+                 THEN [k \in 1..Len(Rs.sigout) |-> IF Rs.sigout[k] = I.t THEN newT ELSE Rs.sigout[k]]
+                 ELSE Rs.sigout
+     IN /\ R' = [R EXCEPT ![s] = [R1 EXCEPT !.ops = PyInsert(rew, opid, newop), !.outs = outs2, !.sigout = sig2,
                                              !.ntens = newT + 1, !.amap = amap2, !.omap = omap2]]
         /\ bufw' = IF I.tr = "ADQ" THEN BufWrite(s, I.t, I.par) ELSE bufw
         /\ insts' = upd
@@ -551,7 +567,7 @@ RX == [s \in 1..Len(R) |->
                     [ins |-> R[s].ops[k].ins, outs |-> R[s].ops[k].outs, orig |-> R[s].ops[k].orig, qk |-> R[s].ops[k].qk,
                      sig |-> IF R[s].ops[k].orig = -1 THEN <<"ins", 0>>
                              ELSE <<G[s].ops[R[s].ops[k].orig+1].kind, R[s].ops[k].orig+1>>]],
-         outs |-> R[s].outs, gins |-> G[s].gins, sigin |-> G[s].gins, sigout |-> G[s].gouts,   \* signature defs are never rewritten
+         outs |-> R[s].outs, gins |-> G[s].gins, sigin |-> G[s].gins, sigout |-> R[s].sigout,
          dt |-> R[s].dt, par |-> R[s].par, nm |-> R[s].nm, shp |-> R[s].shp,
          cst |-> [t \in 1..Len(R[s].dt) |-> t <= NT0(s) /\ (IsConst(s, t-1) \/ IsAux(s, t-1))],
          data |-> [t \in 1..NT0(s) |-> LET w == Writes(BufOf(s, t-1)) IN
@@ -566,7 +582,8 @@ Returned == pc = "done"
 \* C01 structural half, also at every intermediate state of the performer
 InvTopo == pc \in {"gen", "apply", "done"} => \A s \in 1..NSub : GP!TopoOK(s) /\ GP!SingleProducer(s)
 InvWellFormed == Returned => \A s \in 1..NSub : GP!WellFormed(s)
-InvSkeleton == Returned => \A s \in 1..NSub : GP!Skeleton(s)
+InvSkeleton == Returned => \A s \in 1..NSub : GP!SkeletonModKF(s)
+InvSkeletonStrict == Returned => \A s \in 1..NSub : GP!Skeleton(s)
 InvModes == Returned => \A s \in 1..NSub : GP!ModesRespected(s)
 InvParams == Returned => \A s \in 1..NSub : GP!ParamRelations(s)
 InvBytes == Returned => GP!SharedConstOK
@@ -577,7 +594,7 @@ Dump == [scn |-> [subs |-> G, mode |-> mode, inmode |-> inmode, outmode |-> outm
          pc |-> pc, why |-> why,
          R |-> [s \in 1..Len(R) |-> [ops |-> R[s].ops, outs |-> R[s].outs, dt |-> R[s].dt, par |-> R[s].par,
                                        nm |-> R[s].nm]],
-         props |-> [topo |-> InvTopo, wf |-> InvWellFormed, skel |-> InvSkeleton, modes |-> InvModes,
-                    params |-> InvParams, bytes |-> InvBytes]]
+         props |-> [topo |-> InvTopo, wf |-> InvWellFormed, skel |-> InvSkeleton, kf7 |-> ~InvSkeletonStrict /\ InvSkeleton,
+                    modes |-> InvModes, params |-> InvParams, bytes |-> InvBytes]]
 DumpC == Terminal => PrintT(<<"DUMP", ToJson(Dump)>>)
 =============================================================================
